@@ -6,7 +6,7 @@ use asca::verif::Word;
 use asca::Segment;
 use serde_json::{json, Value};
 
-const RULE: &str = "every base phone and base+1-diacritic spelling that parses to one segment x 26 features x {+,-} and 4 sub-nodes + place x {+,-}, as matcher (`[±F] > [+stress]` on a one-segment unstressed word) and as setter (`[] > [±F]`); feature alpha pairs `[αF] > [αG]` / `[αF] > [-αG]` (all 26x26x2, every segment in thorough, every 7th in quick); node alphas `[] > [αN] / [αM] _` over one donor per distinct place value; node-to-feature coercion `[αN] > [±αF]`; random 2-4 feature matrices. Non-trivial = the rule matched (matcher) or changed the bundle (setter/alpha); cases are distinct by construction (rule x segment).";
+const RULE: &str = "every base phone and base+1-diacritic spelling that parses to one segment x 26 features x {+,-} and 4 sub-nodes + place x {+,-}, as matcher (`[±F] > [+stress]` on a one-segment unstressed word) and as setter (`[] > [±F]`); feature alpha pairs `[αF] > [αG]` / `[αF] > [-αG]` (all 26x26x2, every segment in thorough, every 7th in quick); node alphas `[] > [αN] / [αM] _` over one donor per distinct place value; node-to-feature coercion `[αN] > [±αF]`; random 2-4 feature matrices; `[αF, ±G] > [(-)αH]` and `[±G] > [(-)αH] / [αF] _ | _ [αF]` with random F, G, H on random words of 2-4 segments (each position judged by the model on its own neighbours; cases creating equal neighbours discarded). Non-trivial = the rule matched (matcher) or changed the bundle (setter/alpha); cases are distinct by construction (rule x segment).";
 
 // independent bit model. node: 0 root, 1 manner, 2 laryngeal, 3 labial, 4 coronal, 5 dorsal, 6 pharyngeal
 pub const F: [(&str, u8, u8); 26] = [
@@ -179,6 +179,64 @@ pub fn explore(ctx: &Ctx, shard: usize, n: usize) -> Report {
         run_rule(&mut cx, format!("[{}] > [+stress]", body.join(", ")), &segs, 1, &|m| { let hit = fs2.iter().zip(&pol2).all(|(f, p)| m_match(m, F[*f].1, F[*f].2, *p)); (Expect::Bundles(vec![*m], hit), hit) }, "match:conjunction");
         let (fs3, pol3) = (fs.clone(), pol.clone());
         run_rule(&mut cx, format!("[] > [{}]", body.join(", ")), &segs, 1, &|m| { let mut e = *m; for (f, p) in fs3.iter().zip(&pol3) { m_set(&mut e, F[*f].1, F[*f].2, *p); } (Expect::Bundles(vec![e], false), e != *m) }, "set:conjunction");
+    }
+    // 8. alphas in multi-segment words: a binding made while a segment was being rejected must not
+    //    survive to the next segment. `[αF, ±G] > [(-)αH]` is context-free, so every segment is
+    //    rewritten independently; `[±G] > [(-)αH] / [αF] _` takes the value from the (already rewritten)
+    //    left neighbour, `/ _ [αF]` from the (not yet rewritten) right neighbour.
+    let nr = ctx.pick(2500, 40000) as usize;
+    let nw = ctx.pick(40, 120) as usize;
+    let mut rng = Rng::new(ctx.seed, 0x408);
+    for k in 0..nr {
+        let (f, g, h) = (rng.below(26), rng.below(26), rng.below(26));
+        let (gp, inv, shape) = (rng.chance(1, 2), rng.chance(1, 2), rng.below(4));
+        let ws = rng.next();
+        if k % n != shard || f == g { continue } // naming one feature twice in a matrix is not a meaningful rule
+        let gtxt = format!("{}{}", sign(gp), F[g].0);
+        let out = format!("[{}A{}]", if inv { "-" } else { "" }, F[h].0);
+        let rule = match shape {
+            0 => format!("[A{}, {gtxt}] > {out}", F[f].0),
+            1 => format!("[{gtxt}, A{}] > {out}", F[f].0),
+            2 => format!("[{gtxt}] > {out} / [A{}] _", F[f].0),
+            _ => format!("[{gtxt}] > {out} / _ [A{}]", F[f].0),
+        };
+        let rules = match compile1(&rule) { Ok(r) => r, Err(o) => { viol(&mut cx, "alpha-multi:rule-rejected".into(), &rule, "", "parses".into(), o.tag()); continue } };
+        let mut wr = Rng::new(ws, 3);
+        for _ in 0..nw {
+            let len = wr.range(2, 4);
+            let picks: Vec<usize> = (0..len).map(|_| wr.below(segs.len())).collect();
+            let ss: Vec<Segment> = picks.iter().map(|i| seg0(&segs[*i].1)).collect();
+            let cut = if wr.chance(1, 2) { wr.range(1, len - 1) } else { len };
+            let mut ms: Vec<M> = ss.iter().map(to_m).collect();
+            let sstart = |i: usize| i == 0 || i == cut;
+            let adj = |ms: &[M]| (0..ms.len() - 1).any(|j| ms[j] == ms[j + 1] && !sstart(j + 1));
+            if adj(&ms) { continue }
+            let orig = ms.clone();
+            let mut bad = false; let mut fired = 0;
+            for i in 0..len {
+                if !m_match(&ms[i], F[g].1, F[g].2, gp) { continue }
+                let src = match shape { 0 | 1 => Some(ms[i]), 2 => if i > 0 { Some(ms[i - 1]) } else { None }, _ => if i + 1 < len { Some(orig[i + 1]) } else { None } };
+                let Some(src) = src else { continue };
+                let Some(v) = get(&src, F[f].1) else { continue };
+                let val = v & F[f].2 != 0;
+                m_set(&mut ms[i], F[h].1, F[h].2, val != inv);
+                fired += 1;
+                if adj(&ms) { bad = true; break }
+            }
+            if bad { continue }
+            let sylls = if cut < len { vec![crate::sw::syll(&ss[..cut], 0, 0), crate::sw::syll(&ss[cut..], 0, 0)] } else { vec![crate::sw::syll(&ss, 0, 0)] };
+            let w = asca::verif::word_from_syllables(sylls);
+            cx.rep.eval(1);
+            if fired > 0 && ms != orig { cx.rep.nontrivial(hash64(&(&rule, &picks, cut))); }
+            let text = picks.iter().enumerate().map(|(j, i)| format!("{}{}", if j == cut { "." } else { "" }, segs[*i].0)).collect::<String>();
+            match apply(&rules, &w) {
+                Applied::Ok(r) => { let got: Vec<M> = r.syllables.iter().flat_map(|s| s.segments.iter().map(to_m)).collect();
+                    if got != ms { viol(&mut cx, format!("alpha-multi:shape{shape}"), &rule, &text, format!("{ms:?}"), format!("{got:?}")); }
+                    else if r.syllables.len() != w.syllables.len() { viol(&mut cx, format!("alpha-multi:boundaries:shape{shape}"), &rule, &text, "same syllables".into(), crate::sw::dump(&r)); } }
+                Applied::Err(e) => viol(&mut cx, format!("alpha-multi:error:shape{shape}"), &rule, &text, format!("{ms:?}"), e),
+                Applied::Abort(sg) => { let (r2, t2) = (rule.clone(), text.clone()); cx.rep.abort(sg, || json!({"rule": r2, "word": t2})); }
+            }
+        }
     }
     rep
 }
